@@ -165,8 +165,24 @@ func formsOf(b []byte) [][]byte {
 	return f
 }
 
-// leaks names a file of the tree (other than allowedRel and files with the same content)
-// whose bytes, raw or decompressed, occur in the response body, raw or decompressed.
+// layers lists b and what is under each layer of compression.
+func layers(b []byte) [][]byte {
+	out := [][]byte{b}
+	for i := 0; i < 4; i++ {
+		d, ok := decompress(b)
+		if !ok {
+			break
+		}
+		out = append(out, d)
+		b = d
+	}
+	return out
+}
+
+// leaks names a file of the tree whose bytes, raw or decompressed, occur in the response
+// body although the object the request names (allowedRel, "" = none) does not contain them.
+// (An unverified upload can legitimately contain anything, under any number of compression
+// layers; serving it back is not a leak.)
 func leaks(body []byte, compressedBody bool, s snap, allowedRel string) string {
 	if len(body) < 16 {
 		return ""
@@ -177,7 +193,7 @@ func leaks(body []byte, compressedBody bool, s snap, allowedRel string) string {
 	}
 	var allowed [][]byte
 	if a, ok := s[allowedRel]; ok && a.Kind == 'f' && allowedRel != "" {
-		allowed = formsOf(a.Data)
+		allowed = layers(a.Data)
 	}
 	rels := make([]string, 0, len(s))
 	for rel, e := range s {
@@ -189,9 +205,9 @@ func leaks(body []byte, compressedBody bool, s snap, allowedRel string) string {
 files:
 	for _, rel := range rels {
 		sforms := formsOf(s[rel].Data)
-		for _, sf := range sforms { // a copy of the named object (same content in any encoding) is not foreign
+		for _, sf := range sforms { // content that the named object holds too, in whatever encoding, is not foreign
 			for _, af := range allowed {
-				if bytes.Equal(af, sf) {
+				if len(sf) >= 16 && bytes.Contains(af, sf) {
 					continue files
 				}
 			}
